@@ -211,6 +211,10 @@ def validate_batch(module, cfg, records, tag, timeout=600, env=None):
     return accepted, maxl, r
 
 
+MAX_REJECTED = 40     # after this many confirmed rejections the remaining histories are not examined
+LAST_SKIPPED = 0
+
+
 def validate_histories(module, cfg, histories, tag, batch=200, timeout=600, env=None,
                        reset=None):
     """histories: list of lists of records.  Validates them in batches; a rejected batch is split
@@ -233,7 +237,11 @@ def validate_histories(module, cfg, histories, tag, batch=200, timeout=600, env=
 
     def go(idxs):
         nonlocal states, n_ok
+        global LAST_SKIPPED
         if not idxs:
+            return
+        if len(rejected) >= MAX_REJECTED:
+            LAST_SKIPPED += len(idxs)
             return
         acc, maxl, r, starts = run(idxs)
         states += r["distinct"]
@@ -260,8 +268,12 @@ def validate_histories(module, cfg, histories, tag, batch=200, timeout=600, env=
         n_ok += k
         go(idxs[k + 1:])
 
+    global LAST_SKIPPED
+    LAST_SKIPPED = 0
     for b in range(0, len(histories), batch):
         go(list(range(b, min(len(histories), b + batch))))
+    if LAST_SKIPPED:
+        log("note: %d histories not examined after %d rejections (%s)" % (LAST_SKIPPED, len(rejected), module))
     return n_ok, rejected, states
 
 
